@@ -276,12 +276,12 @@ def run(ctx):
     good = [r for r in recs if ver[r['id']]['ok'] and r['kind'] == 'loop' and r['has_error'] and len(r['pos']) > 1][:4]
     badr = []
     for k, r in enumerate(good):
-        r2 = json.loads(json.dumps(r)); r2['id'] = 10**9 + k
+        r2 = core.jcopy(r); r2['id'] = 10**9 + k
         r2['calls'][-1]['err_origin'][1] += 1
         badr.append(r2)
     good2 = [r for r in recs if ver[r['id']]['ok'] and r['kind'] == 'com' and not r['isnan']][:3]
     for k, r in enumerate(good2):
-        r2 = json.loads(json.dumps(r)); r2['id'] = 10**9 + 100 + k; r2['x'] += 40
+        r2 = core.jcopy(r); r2['id'] = 10**9 + 100 + k; r2['x'] += 40
         badr.append(r2)
     if badr:
         vb = core.validate_batch(ctx, 'Trace_Centroid', badr, 'SelfTest:Centroid', shards=2)
